@@ -21,6 +21,9 @@ pub struct C07 {
 	gen: HistGen,
 	pre: Option<(usize, Snap, BTreeMap<String, String>)>,
 	redirect: Option<Step>,
+	/// a receive into a named account that just succeeded (candidate for an immediate
+	/// second delivery of the same slate to the same account)
+	named_receive: Option<Step>,
 	received: Vec<(usize, String, uuid::Uuid)>,
 }
 
@@ -49,6 +52,7 @@ impl C07 {
 			gen,
 			pre: None,
 			redirect: None,
+			named_receive: None,
 			received: vec![],
 		}
 	}
@@ -302,6 +306,14 @@ impl Prop for C07 {
 		if let Some(s) = self.redirect.take() {
 			return Some(s);
 		}
+		if let Some(s) = self.named_receive.take() {
+			// "a second delivery of the same slate to that account is refused": also when
+			// that account was named by the request and is not the active one
+			if run.rng.chance(1, 2) {
+				run.cov.probe("second_delivery_into_a_named_account");
+				return Some(s);
+			}
+		}
 		if self.gen.setup_done && run.rng.chance(2, 5) {
 			if let Some(s) = self.byzantine(run) {
 				return Some(s);
@@ -325,6 +337,15 @@ impl Prop for C07 {
 	fn after(&mut self, run: &mut Run, step: &Step, out: &StepOut) -> Vec<Violation> {
 		let mut v = vec![];
 		self.gen.feedback(run, step, out);
+		if let Op::Receive { dest: Some(_), .. } = &step.op {
+			let repeat = run.trace.len() >= 2 && run.trace[run.trace.len() - 2].op == step.op;
+			if out.ok && !repeat {
+				let mut s = step.clone();
+				s.fault = None;
+				s.node_fail = None;
+				self.named_receive = Some(s);
+			}
+		}
 		if let Op::Mutate { .. } = &step.op {
 			if out.new_msg.is_none() {
 				self.redirect = None;
